@@ -659,6 +659,15 @@ def gen_check(pid, rule):
         run = Run(pid, tier, seed)
         ctx = build_phase()
         gate, obl = gate_and_ties(run, ctx, pid, seed, tier, need_leaf=(pid == 'C14'))
+        if pid == 'C12':
+            # presence decides what is written: pack correspondence on schemas with every implicit-presence type,
+            # defaults of every kind, has flags 0/1/2, default pointers; oracle: the three serialisers agree
+            rnd = random.Random(seed * 1000003 + 12)
+            st12 = Stats()
+            envs = envs_for(rnd, tier, 4, 40, oneof_defaults=True)
+            run_corr_streams(run, ctx, rnd, envs, 40 if tier == 'quick' else 120, st12,
+                             [lambda r, e, s, n: stream_pack(r, e, s, n, canon=False)], 'presence', pack_oracle_factory(None))
+            run.cov['presence_stream'] = {'cases': st12.n, 'schemas': st12.schemas}
         stats = gencheck.generator_part(run, pid, tier, seed)
         run.cov['generator_tie'] = stats
         run.cov['evaluations'] = stats['cases']
@@ -738,6 +747,8 @@ def check_C03(tier, seed):
             else:
                 tally['reference_reads_back_original'] += 1
     run.cov['reference_tie'] = tally
+    import gencheck
+    run.cov['generator_tie'] = gencheck.generator_part(run, 'C03', tier, seed, n_quick=25, n_thorough=300)
     finish_stats(run, st, 'random schemas x canonical messages: PACK on protobuf-c, on the extracted model and on libprotobuf (deterministic serialisation): '
                           'bytes must be identical; the bytes protobuf-c packed are parsed by libprotobuf and the result (normal form of harness/gen/refnorm.py: '
                           'values bit-exact, presence, order, oneof member, unknown fields) must be the original message')
@@ -1018,6 +1029,16 @@ def alloc_check(pid, tier, seed):
                 viol(run, 'oracle', 'the allocation discipline is violated on this run (verified monitor Impl/Ledger.v rejects the trace: %s)\n'
                                     'events: a<i>:<size> granted, r<i>:<size> refused, f<i> freed, x bad free, U1/U0 unpack returned message/NULL, F free_unpacked returned\n'
                                     '--- schema + case\n%s%s\n--- trace\n%s\n' % (v, env.text(), l, o[:4000]))
+    if pid == 'C08':
+        benv = casegen.Env([casegen.MsgDesc(0, [], 0, 1)])
+        blines = ['BUF 4 0 3 3 10', 'BUF 8 1+ 8 1 20 100', 'BUF 3 0,2 2 2 2 2 2 2 2', 'BUF 2 1 3 6 0 1 7', 'BUF 1 2 1 1 2 4 8 16']
+        for _ in range(150 if tier == 'quick' else 2000):
+            blines.append(casegen.gen_buf_case(rnd))
+        c_out, m_out, bad, c_err, _t = corr(run, ctx, benv, blines, 'c08buf')
+        if bad or len(c_out) != len(blines):
+            viol(run, 'disagreement', open(report_disagreement(run, benv.text(), blines, c_out, m_out, bad, c_err,
+                                                                'buffer model <-> protobuf_c_buffer_simple_append disagree (refused growth must keep contents, length, capacity, ownership)')).read())
+        tally['buffer_histories'] = len(blines)
     run.cov['ledger'] = tally
     finish_stats(run, st, 'random schemas x inputs (valid re-encodings incl. split sub-messages = merge paths, corrupted, canonical): protobuf_c_message_unpack with a recording allocator, '
                           + ('failure-free' if pid == 'C07' else 'with the k-th request refused for EVERY k below the request count of the failure-free run (quick: at most 24 per input), plus k+ and random subsets')
